@@ -24,14 +24,14 @@ var propOrder = []string{"C03", "C04", "C05", "C06", "C07", "C08", "C09", "C10",
 var props = map[string]propCfg{
 	"C19": {
 		level: "exploration",
-		rule: "each run: a session of 1-3 steps, each with 1-3 expected outputs (constant and variable patterns, guards that accept, reject, or test the bound value) and optionally an inverted output, step timeouts 300 ms / 1 s / default 2 s; the simulated child answers each input with the ideal lines for that step after one stream fault (none, duplicate, drop, duplicate-in-place-of-dropped, reorder, delayed past the timeout, noise and unrelated JSON, forbidden line before the last required one, value rejected by the guard, guard rejecting everything); Session.Run runs for real on the simulated clock under the serial scheduler; distinct = distinct (outputs, fault) shapes x verdict",
+		rule:  "each run: a session of 1-3 steps, each with 1-3 expected outputs (constant and variable patterns, guards that accept, reject, or test the bound value) and optionally an inverted output, step timeouts 300 ms / 1 s / default 2 s; the simulated child answers each input with the ideal lines for that step after one stream fault (none, duplicate, drop, duplicate-in-place-of-dropped, reorder, delayed past the timeout, noise and unrelated JSON, forbidden line before the last required one, value rejected by the guard, guard rejecting everything); Session.Run runs for real on the simulated clock under the serial scheduler; distinct = distinct (outputs, fault) shapes x verdict",
 		parts: []part{{name: "", engine: "expect", race: false, quick: 10000, thorough: 100000}},
 		comps: []string{"real: tools/expect Session.Run (reader, writer and timer goroutines, matching, guard compilation and execution) - instrumented copy with exec.Command replaced by simexec.Command", "stub: the child process (scripted goroutine over io.Pipes)", "simulated: clock, goroutine scheduling, the child's output stream and its faults"},
 		assum: []string{"the oracle asserts necessary conditions for a pass (strict direction) and that a never-arriving expected message ends in an error rather than a hang; it does not assert that the tool passes whenever it could"},
 	},
 	"C03": {
 		level: "exploration",
-		rule: "order: one (pattern, message, bindings) triple per run from a grammar biased to order-sensitive shapes (one variable at several keys with structured values that partially match each other, property variables with siblings nested beside a merely failing key, arrays with one variable among structured and scalar members, optional and inequality variables, pre-bound variables); every map iteration inside match.go is permuted independently - all combinations enumerated depth-first up to 96 per triple, 12 tape-sampled ones beyond; arguments snapshotted (canonical JSON + container identity), results mutated; concurrent: 2-6 tasks x 1-3 calls on the same objects under the serial scheduler with the race monitor; distinct = distinct triples (x schedule hash); non-trivial = at least two iteration orders / at least one scheduling choice",
+		rule:  "order: one (pattern, message, bindings) triple per run from a grammar biased to order-sensitive shapes (one variable at several keys with structured values that partially match each other, property variables with siblings nested beside a merely failing key, arrays with one variable among structured and scalar members, optional and inequality variables, pre-bound variables); every map iteration inside match.go is permuted independently - all combinations enumerated depth-first up to 96 per triple, 12 tape-sampled ones beyond; arguments snapshotted (canonical JSON + container identity), results mutated; concurrent: 2-6 tasks x 1-3 calls on the same objects under the serial scheduler with the race monitor; distinct = distinct triples (x schedule hash); non-trivial = at least two iteration orders / at least one scheduling choice",
 		parts: []part{
 			{name: "order", engine: "core", race: false, quick: 40000, thorough: 600000},
 			{name: "concurrent", engine: "core", race: true, quick: 4000, thorough: 60000},
@@ -40,7 +40,7 @@ var props = map[string]propCfg{
 	},
 	"C04": {
 		level: "exploration",
-		rule: "each run: one tape-generated specification (2-5 nodes, ordered branches over a small pattern/message vocabulary, guards, ECMAScript and native actions from the deterministic action language with injected failures, @var targets, every error-routing mode) and 4-11 (state, pending message) trials; every Spec.Step result is compared with the reference machine; distinct = distinct sequences of (reference rule, moved, consumed, #emitted); non-trivial = at least one trial moved the machine or was a documented error",
+		rule:  "each run: one tape-generated specification (2-5 nodes, ordered branches over a small pattern/message vocabulary, guards, ECMAScript and native actions from the deterministic action language with injected failures, @var targets, every error-routing mode) and 4-11 (state, pending message) trials; every Spec.Step result is compared with the reference machine; distinct = distinct sequences of (reference rule, moved, consumed, #emitted); non-trivial = at least one trial moved the machine or was a documented error",
 		parts: []part{
 			{name: "", engine: "core", race: false, quick: 30000, thorough: 400000},
 		},
@@ -48,43 +48,43 @@ var props = map[string]propCfg{
 	},
 	"C05": {
 		level: "exploration",
-		rule: "each run: one generated specification, start state and history of 1-8 unique messages; a simulated host delivers it in tape-chosen consecutive batches with step limits 0-40 and breakpoint predicates, resuming from the returned state with exactly Remaining; then the same history all at once; distinct = distinct (batch size, limit, breakpoint, stop reason) sequences; non-trivial = at least two Walk calls",
+		rule:  "each run: one generated specification, start state and history of 1-8 unique messages; a simulated host delivers it in tape-chosen consecutive batches with step limits 0-40 and breakpoint predicates, resuming from the returned state with exactly Remaining; then the same history all at once; distinct = distinct (batch size, limit, breakpoint, stop reason) sequences; non-trivial = at least two Walk calls",
 		parts: []part{{name: "", engine: "core", quick: 30000, thorough: 400000}},
 		comps: []string{"real: core.Spec.Compile/Step/Walk, match.Match, interpreters/ecmascript (goja) - instrumented copies with the map-order seam", "reference: /verif/ref machine + mini-matcher (written from the documentation)", "injected: action/guard failures (throw, bad return, unserialisable emit, null, stub interpreter results), map iteration orders"},
 	},
 	"C06": {
 		level: "exploration",
-		rule: "each run: one generated specification, a shared list of message objects and 1-3 states (fan-out); per state a Step or Walk call, deep snapshots of state/messages/control/props/branch patterns before and after, aliasing of returned bindings, then the identical call again (retry); distinct = distinct specification + outcome shapes",
+		rule:  "each run: one generated specification, a shared list of message objects and 1-3 states (fan-out); per state a Step or Walk call, deep snapshots of state/messages/control/props/branch patterns before and after, aliasing of returned bindings, then the identical call again (retry); distinct = distinct specification + outcome shapes",
 		parts: []part{{name: "", engine: "core", quick: 30000, thorough: 400000}},
 		comps: []string{"real: core.Spec.Compile/Step/Walk, match.Match, interpreters/ecmascript (goja) - instrumented copies with the map-order seam", "reference: /verif/ref machine + mini-matcher (written from the documentation)", "injected: action/guard failures (throw, bad return, unserialisable emit, null, stub interpreter results), map iteration orders"},
 	},
 	"C07": {
 		level: "fault_enumeration",
-		rule: "process: per generated program the product {every node, unknown node, error node} x {nil, '!'-carrying, generated bindings} x {no, map, scalar message} x {nil, given control} x {Step, Walk} is enumerated under a panic trap, action/guard failure kinds are part of the program; load: a generated document gets one of 19 structural faults and is loaded through encoding/json, yaml.v2 and jsccast/yaml, compiled, and walked; distinct = distinct programs / (fault, outcome) pairs",
+		rule:  "process: per generated program the product {every node, unknown node, error node} x {nil, '!'-carrying, generated bindings} x {no, map, scalar message} x {nil, given control} x {Step, Walk} is enumerated under a panic trap, action/guard failure kinds are part of the program; load: a generated document gets one of 19 structural faults and is loaded through encoding/json, yaml.v2 and jsccast/yaml, compiled, and walked; distinct = distinct programs / (fault, outcome) pairs",
 		parts: []part{{name: "process", engine: "core", quick: 3000, thorough: 60000}, {name: "load", engine: "core", quick: 15000, thorough: 200000}},
 		comps: []string{"real: core.Spec.Compile/Step/Walk, match.Match, interpreters/ecmascript (goja) - instrumented copies with the map-order seam", "reference: /verif/ref machine + mini-matcher (written from the documentation)", "injected: action/guard failures (throw, bad return, unserialisable emit, null, stub interpreter results), map iteration orders"},
 	},
 	"C08": {
 		level: "fault_enumeration",
-		rule: "per run: (A) a generated program and history checked stride by stride against the reference's completed executions; (B) for an action with n<=4 emits, failure after the k-th emit for every k in [0,n] x {throw, bad return, unserialisable emit}, as first or second action of a three-message walk, under a tape-chosen error-routing mode, with or without an emitting guard; (C) failure by timeout: a script of n<=4 emissions separated by tick() calls, the deadline placed inside the tick after the k-th emission for every k in [0,n] on the simulated clock, via Exec/Step/Walk under a tape-chosen error-routing mode; sio: the same through a crew's Result.Emitted; distinct = distinct (program, n, mode, position)",
+		rule:  "per run: (A) a generated program and history checked stride by stride against the reference's completed executions; (B) for an action with n<=4 emits, failure after the k-th emit for every k in [0,n] x {throw, bad return, unserialisable emit}, as first or second action of a three-message walk, under a tape-chosen error-routing mode, with or without an emitting guard; (C) failure by timeout: a script of n<=4 emissions separated by tick() calls, the deadline placed inside the tick after the k-th emission for every k in [0,n] on the simulated clock, via Exec/Step/Walk under a tape-chosen error-routing mode; sio: the same through a crew's Result.Emitted; distinct = distinct (program, n, mode, position)",
 		parts: []part{{name: "core", engine: "core", quick: 8000, thorough: 150000}, {name: "sio", engine: "sio", quick: 6000, thorough: 100000}, {name: "timeout", engine: "core", quick: 2000, thorough: 30000}},
 		comps: []string{"real: core.Spec.Compile/Step/Walk, match.Match, interpreters/ecmascript (goja) - instrumented copies with the map-order seam", "reference: /verif/ref machine + mini-matcher (written from the documentation)", "injected: action/guard failures (throw, bad return, unserialisable emit, null, stub interpreter results), map iteration orders"},
 	},
 	"C09": {
 		level: "fault_enumeration",
-		rule: "per run: a generated program whose later patterns inspect values produced by earlier actions, a history of 1-6 messages; twin A keeps the state in memory, twin B writes it as JSON and reads it back before message i, for every i (enumerated) and for one tape-chosen subset; per message (node, bindings, emitted) must agree; distinct = distinct (program, nodes visited)",
+		rule:  "per run: a generated program whose later patterns inspect values produced by earlier actions, a history of 1-6 messages; twin A keeps the state in memory, twin B writes it as JSON and reads it back before message i, for every i (enumerated) and for one tape-chosen subset; per message (node, bindings, emitted) must agree; distinct = distinct (program, nodes visited)",
 		parts: []part{{name: "", engine: "core", quick: 16000, thorough: 300000}},
 		comps: []string{"real: core.Spec.Compile/Step/Walk, match.Match, interpreters/ecmascript (goja) - instrumented copies with the map-order seam", "reference: /verif/ref machine + mini-matcher (written from the documentation)", "injected: action/guard failures (throw, bad return, unserialisable emit, null, stub interpreter results), map iteration orders"},
 	},
 	"C18": {
 		level: "exploration",
-		rule: "each run: a generated program (native, ECMAScript and stub actions; guards that reject or fail), a start state carrying permanent bindings, a history of 1-6 messages; on every stride that moved, each '!' binding of From must be in To with an equal value; distinct = distinct stride-outcome sequences; non-trivial = at least one stride checked",
+		rule:  "each run: a generated program (native, ECMAScript and stub actions; guards that reject or fail), a start state carrying permanent bindings, a history of 1-6 messages; on every stride that moved, each '!' binding of From must be in To with an equal value; distinct = distinct stride-outcome sequences; non-trivial = at least one stride checked",
 		parts: []part{{name: "", engine: "core", quick: 30000, thorough: 400000}},
 		comps: []string{"real: core.Spec.Compile/Step/Walk, match.Match, interpreters/ecmascript (goja) - instrumented copies with the map-order seam", "reference: /verif/ref machine + mini-matcher (written from the documentation)", "injected: action/guard failures (throw, bad return, unserialisable emit, null, stub interpreter results), map iteration orders"},
 	},
 	"C10": {
 		level: "exploration",
-		rule: "each run: one probe program and 1-3 polluter programs (random subsets of 16 attacks on bindings, globals, prototypes, built-ins, environment members, step properties), a plan of 2-7 executions ending in a probe, with or without precompiled programs; sequence: executed in order; concurrent: every execution is a task, interleaved at tick() yields under the serial scheduler, race monitor on; distinct = distinct (plan, attack sets, schedule hash)",
+		rule:  "each run: one probe program and 1-3 polluter programs (random subsets of 16 attacks on bindings, globals, prototypes, built-ins, environment members, step properties), a plan of 2-7 executions ending in a probe, with or without precompiled programs; sequence: executed in order; concurrent: every execution is a task, interleaved at tick() yields under the serial scheduler, race monitor on; distinct = distinct (plan, attack sets, schedule hash)",
 		parts: []part{
 			{name: "sequence", engine: "core", race: false, quick: 12000, thorough: 200000},
 			{name: "concurrent", engine: "core", race: true, quick: 2000, thorough: 40000},
@@ -93,14 +93,14 @@ var props = map[string]propCfg{
 	},
 	"C11": {
 		level: "exploration",
-		rule: "each run: 1-8 executions (7 script shapes: loops, recursion, array and property churn, a terminating script, emit-then-loop) via Interpreter.Exec, Spec.Step or Spec.Walk under each error-routing mode, deadlines from already expired to 300 simulated ms or cancel() issued inside tick N<=12, tick lengths 1/3/7 simulated ms, all as tasks under the serial scheduler with the simulated clock; distinct = distinct (execution plans, schedule hash)",
+		rule:  "each run: 1-8 executions (7 script shapes: loops, recursion, array and property churn, a terminating script, emit-then-loop) via Interpreter.Exec, Spec.Step or Spec.Walk under each error-routing mode, deadlines from already expired to 300 simulated ms or cancel() issued inside tick N<=12, tick lengths 1/3/7 simulated ms, all as tasks under the serial scheduler with the simulated clock; distinct = distinct (execution plans, schedule hash)",
 		parts: []part{{name: "", engine: "core", race: true, quick: 3000, thorough: 60000}},
 		comps: []string{"real: interpreters/ecmascript (goja runtime, watcher goroutine, context handling), core.Step/Walk error routing", "simulated: clock (testing/synctest), script progress (tick seam: a host function that sleeps simulated time and yields), goroutine scheduling"},
 		assum: []string{"CPU time of interpreted code is modelled by explicit tick() calls; a script that never calls tick() cannot consume simulated time and is not generated"},
 	},
 	"C12": {
 		level: "exploration",
-		rule: "shared: one generated compiled spec, 2-6 walker tasks with their own states and 1-3 messages, results compared with the same walks done alone; swap: an UpdatableSpec holding version A or B (every action tags its emissions), 2-5 walkers x 1-4 calls and a swapper task issuing 1-6 swaps, each call must equal that call under A alone or under B alone; serial scheduler with yields at Step/Walk/consider/try/Exec entries, race monitor on; distinct = distinct schedule hashes; non-trivial = at least one scheduling choice",
+		rule:  "shared: one generated compiled spec, 2-6 walker tasks with their own states and 1-3 messages, results compared with the same walks done alone; swap: an UpdatableSpec holding version A or B (every action tags its emissions), 2-5 walkers x 1-4 calls and a swapper task issuing 1-6 swaps, each call must equal that call under A alone or under B alone; serial scheduler with yields at Step/Walk/consider/try/Exec entries, race monitor on; distinct = distinct schedule hashes; non-trivial = at least one scheduling choice",
 		parts: []part{
 			{name: "shared", engine: "core", race: true, quick: 2000, thorough: 40000},
 			{name: "swap", engine: "core", race: true, quick: 2000, thorough: 40000},
@@ -109,19 +109,19 @@ var props = map[string]propCfg{
 	},
 	"C14": {
 		level: "exploration",
-		rule: "mcrew: 1-4 recorder machines, 1-2 client tasks x 1-3 messages (targets absent, id, unknown id, timers, http, ws; nested emission instructions, timers that deliver messages later), counting oracle over the recorders' logs at quiescence and over the Emitted channel; sio: a crew of 1-5 recorder machines, 1-4 submitted messages with unique ids, routing targets (absent, id, '*', unknown, service names, lists with unknown, repeated, non-string and service members) and nested emission instructions (hop budget 2); the order in which machines are presented a message comes from the map-order seam; counting oracle over the recorders' logs and Result.Emitted; distinct = distinct (crew size, processed/batch counts) shapes",
+		rule:  "mcrew: 1-4 recorder machines, 1-2 client tasks x 1-3 messages (targets absent, id, unknown id, timers, http, ws; nested emission instructions, timers that deliver messages later), counting oracle over the recorders' logs at quiescence and over the Emitted channel; sio: a crew of 1-5 recorder machines, 1-4 submitted messages with unique ids, routing targets (absent, id, '*', unknown, service names, lists with unknown, repeated, non-string and service members) and nested emission instructions (hop budget 2); the order in which machines are presented a message comes from the map-order seam; counting oracle over the recorders' logs and Result.Emitted; distinct = distinct (crew size, processed/batch counts) shapes",
 		parts: []part{{name: "sio", engine: "sio", race: false, quick: 10000, thorough: 150000}, {name: "sio-loop", engine: "sio", race: true, quick: 600, thorough: 15000}, {name: "mcrew", engine: "mcrew", race: true, quick: 800, thorough: 15000}},
 		comps: []string{"real: sio.Crew ProcessMsg/RunMachines/toMachines, core.Walk, ecmascript interpreter (instrumented copies)", "real: cmd/mcrew Service.Process/Route/toTimers/Timers on a real bbolt store (tmpfs) with recorder machines loaded from a spec file; client tasks and the service's asynchronous re-processing goroutines under the serial scheduler with the simulated clock", "reference: router models (documented routing rules) in the harnesses", "simulated: order in which machines are presented a message (map-order seam), goroutine scheduling, clock", "not simulated: real HTTP egress, WebSocket peers (messages to 'http'/'ws' are only checked to reach no machine)"},
 	},
 	"C15": {
 		level: "fault_enumeration",
-		rule: "each run: a history of 2-8 operations over <=3 machine ids - captain create (two spec versions, with or without state), replace state, replace spec, delete, re-create, interleaved with routed/unrouted messages that move the recorder machines; after every ProcessMsg the fold of Result.Changed is compared with the live crew (node, bindings, spec source modulo compilation, deleted machines absent); then for every message boundary a twin crew is booted from the JSON of the shadow store and must produce equal states and emission batches for the rest of the history; distinct = distinct operation-kind sequences",
+		rule:  "each run: a history of 2-8 operations over <=3 machine ids - captain create (two spec versions, with or without state), replace state, replace spec, delete, re-create, interleaved with routed/unrouted messages that move the recorder machines; after every ProcessMsg the fold of Result.Changed is compared with the live crew (node, bindings, spec source modulo compilation, deleted machines absent); then for every message boundary a twin crew is booted from the JSON of the shadow store and must produce equal states and emission batches for the rest of the history; distinct = distinct operation-kind sequences",
 		parts: []part{{name: "", engine: "sio", race: false, quick: 6000, thorough: 100000}, {name: "sio-loop", engine: "sio", race: true, quick: 800, thorough: 20000}},
 		comps: []string{"real: sio.Crew (ProcessMsg, captain machine, SetMachine/DeleteMachine, GetChanged), core.Walk, ecmascript interpreter", "reference: shadow store folded exactly as sio/stdio.go folds Result.Changed; boot path as sio/siostd/main.go", "injected: crash/restart at every message boundary (JSON round trip of the store), order of machines (map-order seam)"},
 	},
 	"C16": {
 		level: "fault_enumeration",
-		rule: "faults: one client, 3-9 operations (add, remove, process, read crew; NaN-producing machines, empty and 40 kB ids) over <=3 ids, at every operation position the store may start or stop failing (bbolt closed / reopened), after every operation memory is compared with memory-before (failed writes) and with Storage.GetCrew (healthy store); concurrent: 2-4 client tasks x 1-4 operations under the serial scheduler, porcupine against a sequential crew model with the final memory as one more read, plus memory == store at quiescence; both: clients plus a task closing/reopening the store, only the quiescent invariant after the store is back; distinct = distinct (operation, fault) sequences / schedule hashes",
+		rule:  "faults: one client, 3-9 operations (add, remove, process, read crew; NaN-producing machines, empty and 40 kB ids) over <=3 ids, at every operation position the store may start or stop failing (bbolt closed / reopened), after every operation memory is compared with memory-before (failed writes) and with Storage.GetCrew (healthy store); concurrent: 2-4 client tasks x 1-4 operations under the serial scheduler, porcupine against a sequential crew model with the final memory as one more read, plus memory == store at quiescence; both: clients plus a task closing/reopening the store, only the quiescent invariant after the store is back; distinct = distinct (operation, fault) sequences / schedule hashes",
 		parts: []part{
 			{name: "faults", engine: "mcrew", race: false, quick: 8000, thorough: 80000},
 			{name: "concurrent", engine: "mcrew", race: true, quick: 800, thorough: 15000},
@@ -132,7 +132,7 @@ var props = map[string]propCfg{
 	},
 	"C17": {
 		level: "exploration",
-		rule: "each run: a tape-generated plan of make/cancel/sleep requests over <=3 timer ids issued by 1-3 requester tasks plus handler-issued requests, executed on the real timers code under the serial scheduler with the simulated clock; distinct = distinct (operation history, schedule) event hashes; non-trivial = at least one timer fired or was cancelled and at least two tasks interleaved",
+		rule:  "each run: a tape-generated plan of make/cancel/sleep requests over <=3 timer ids issued by 1-3 requester tasks plus handler-issued requests, executed on the real timers code under the serial scheduler with the simulated clock; distinct = distinct (operation history, schedule) event hashes; non-trivial = at least one timer fired or was cancelled and at least two tasks interleaved",
 		parts: []part{
 			{name: "mcrew-timers", engine: "mcrew", race: true, quick: 4000, thorough: 60000},
 			{name: "sio-timers", engine: "sio", race: true, quick: 1500, thorough: 30000},
